@@ -36,7 +36,7 @@ FLOORS = {"quick": {"histories": 25000, "exhaustive_core_histories": 20000, "ran
                     "deadline_after_placements": 4000, "reboot_with_subscribe_messages": 3000}}
 
 FOREVER = 0xFFFFFF
-SUBS = {"A": ("10.0.6.1", 30490), "B": ("10.0.6.2", 30490)}
+SUBS = {"A": ("10.0.6.1", 30490), "B": ("10.0.6.1", 30491)}  # same host, other port
 SUB_NAME = {v: k for k, v in SUBS.items()}
 # instances: name -> (service id, instance, major, eventgroups)
 INSTANCES = {"X": (0x3001, 1, 1, (1, 2, 3)), "Y": (0x3002, 7, 2, (1,))}
